@@ -1,16 +1,67 @@
 """C27: common.wrap_text_into_lines.
 
-Bounded stand-in only (NOT counted as proved): the function chains three loops over lists produced by
-``str.split`` and a list comprehension; its inductive invariants need sequence-of-sequence reasoning
-(join of a mapped list) that the home-made verifier does not discharge.  The function's own
-``@ensure text == "".join(result)`` and its ``assert "".join(tokens) == text`` make clause 1 a run-time
-checked contract: a violation surfaces as an exception, never as silently changed text.
+Proved (for every text and every width >= 0), on the real function:
+
+ 1. text preservation: ``"".join(result) == text`` -- three cut points carry it: the token loop keeps "the tokens
+    (plus the pending article) joined by blanks are the parts seen so far joined by blanks"; the list comprehension
+    that appends the blanks is cut like a loop ("the new tokens concatenated are the old tokens joined by blanks");
+    the segment loop keeps "segments + accumulation concatenated are the tokens seen so far concatenated".  The
+    function's own ``assert "".join(tokens) == text`` and ``@ensure`` are obligations, not assumptions.
+ 2. width: every segment fits the width or is one token by itself (a word, or an article glued to the word that
+    follows it); ``one_token`` is a ghost predicate that holds of the tokens only (introduced per iteration).
+
+Clause 3 (an article never ends a segment while a word follows) relates positions in the text to token boundaries
+across all three loops; it stays with the bounded unit (exhaustive small texts, NOT counted as proved), which also
+checks 1 and 2 again on the running code and that equal arguments give equal results whatever was called before.
 """
+from pyvc.contract import Contract, Loop
 from pyvc.units import Native
 
+FN = "aas_core_codegen.common:wrap_text_into_lines"
+
 UNITS = [
+    Contract(
+        FN, ["C27"], specs=["specs.wrap"],
+        requires=[("width-not-negative", "line_width >= 0")],
+        loops={
+            # for part in parts
+            1: Loop(join_prefixes={"parts_joined": " "},
+                    invariants=[
+                        ("tokens-stand-for-the-parts-so-far", "pending_join(tokens, article) == parts_joined(_i)"),
+                        ("nothing-collected-only-at-the-start",
+                         "(len(tokens) == 0 and article is None) == (_i == 0)")]),
+            # for token in tokens
+            2: Loop(join_prefixes={"tokens_joined": ""},
+                    list_folds={"segments": {
+                        "all_fit_or_single": "lambda acc, s: acc and (len(s) <= line_width or one_token(s))"}},
+                    elem_facts=["one_token(token)"],
+                    invariants=[
+                        ("text-so-far-kept", "''.join(segments) + ''.join(accumulation) == tokens_joined(_i)"),
+                        ("length-of-the-accumulation", "accumulation_len == len(''.join(accumulation))"),
+                        ("accumulation-fits", "accumulation_len <= line_width"),
+                        ("segments-fit-or-single", "all_fit_or_single(segments)")]),
+        },
+        comps={
+            # tokens = [f"{token} " if i < len(tokens) - 1 else token for i, token in enumerate(tokens)]
+            1: Loop(acc="_spaced", acc_type="List[str]", join_prefixes={"old_joined": " "},
+                    invariants=[
+                        ("as-many", "len(_spaced) == _i"),
+                        ("blanks-moved-into-the-tokens",
+                         "''.join(_spaced) == (old_joined(_i) if (_i == 0 or _i == len(tokens)) "
+                         "else old_joined(_i) + ' ')")]),
+        },
+        ensures=[
+            ("text-preserved", "''.join(result) == text"),
+            ("single-part-is-returned-as-it-is", "implies(len(text.split(' ')) == 1, len(result) == 1)"),
+            ("every-segment-fits-or-is-a-single-token",
+             "implies(len(text.split(' ')) > 1, all_fit_or_single(result))"),
+        ],
+        twins=[("never-fits", "implies(len(text.split(' ')) > 1, not all_fit_or_single(result))")],
+        pure=["specs.wrap:one_token"], use_as_callee=False, replay="native.c27:replay"),
     Native("wrap_text_into_lines: all small texts", ["C27"], "native.c27:bounded", kind="bounded",
            bound="all texts of <= 5 (thorough: <= 6) space-separated parts from {a, an, the, x, word, "
-                 "looooooooong, ''(doubled space)} x widths {1,4,7,12,60}; exhaustive within the bound",
+                 "looooooooong, ''(doubled space)} x widths {1,4,7,12,60}, each text called with the widths "
+                 "descending-then-ascending or ascending-then-descending; all three clauses on every call and equal "
+                 "results for equal arguments; exhaustive within the bound",
            args={"max_tokens": 5}, thorough_args={"max_tokens": 6}),
 ]
